@@ -8,7 +8,10 @@ pub mod c01;
 pub mod c02;
 pub mod c03;
 pub mod c04;
+pub mod c05;
+pub mod c06;
 pub mod c08;
+pub mod c11;
 pub mod c13;
 pub mod c16;
 
@@ -68,7 +71,10 @@ pub fn dispatch(
     route!("C02", c02);
     route!("C03", c03);
     route!("C04", c04);
+    route!("C05", c05);
+    route!("C06", c06);
     route!("C08", c08);
+    route!("C11", c11);
     route!("C13", c13);
     route!("C16", c16);
 
